@@ -2,3 +2,4 @@ pub mod common;
 pub mod r1;
 pub mod gen;
 pub mod e1;
+pub mod e5;
